@@ -303,9 +303,14 @@ class Check(common.Check):
         ops = []
         for _ in range(rng.randint(3, 40)):
             r = rng.random()
-            if r < 0.04:
+            if r < 0.03:
+                k = rng.randrange(2)
+                ops.append(f'{["cbus", "abus"][k]} {rng.randint(1, 4)} 0')
+                ops.append(f'derive {k} {rng.randrange(16)}')
+                ops += [f'{["cbus", "abus"][k]} {rng.randint(1, 4)} 0' for _ in range(rng.randint(1, 3))]
+            elif r < 0.06:
                 ops.append('refuse ' + rng.choice(['sendlist', 'loadlist', 'noframes', 'abus', 'cbus']))
-            elif r < 0.1:
+            elif r < 0.12:
                 # free_all with multi-number ranges alive, then allocations that need those numbers
                 ops.append(f'buf {rng.randint(2, 4)} 0')
                 ops.append('bfreeall')
@@ -388,6 +393,8 @@ class Check(common.Check):
                 lines += ['use 2', 'freeall']
             elif w[0] == 'refuse':
                 lines += ['use 2', 'freenone']            # a refused call changes nothing
+            elif w[0] == 'derive':
+                lines += [f'use {w[1]}', 'freenone']      # dropping a second object on the index changes nothing
             else:
                 lines.append('bad')
         return lines
@@ -403,6 +410,8 @@ class Check(common.Check):
         res += [f'part {m.group(1)}', f'part {m.group(2)}', f'part {m.group(3)}', f'node {m.group(4)}']
         kinds = ['ControlBus', 'AudioBus', 'Buffer']
         freed = [0, 0, 0]
+        nlive = [0, 0, 0]
+        slot_of = {'cbus': 0, 'abus': 1, 'buf': 2}
         for op in case['ops']:
             w = op.split()
             if w[0] in ('abus', 'cbus', 'buf'):
@@ -418,6 +427,8 @@ class Check(common.Check):
                     res.append('buf ' + ','.join(str(b + i) for i in range(int(w[1]))))
                 else:
                     res.append(f'{w[0]} {m.group(2)}')
+                if m and m.group(2) != 'None':
+                    nlive[slot_of[w[0]]] += 1
             elif w[0] == 'node':
                 l = next(it, 'missing')
                 res.append('node ' + l[4:] if l.startswith('ids ') else l)
@@ -428,6 +439,7 @@ class Check(common.Check):
                 res.append(f'free {kinds[int(w[1])]} {m.group(1)}' if m else l)
                 if m:
                     freed[int(w[1])] += 1
+                    nlive[int(w[1])] -= 1
             elif w[0] == 'refree':
                 next(it, None)
                 next(it, None)
@@ -436,10 +448,15 @@ class Check(common.Check):
                 next(it, None)
                 next(it, None)
                 res.append('refuse raised')
+            elif w[0] == 'derive':
+                next(it, None)
+                next(it, None)
+                res.append('derive ok' if int(w[1]) < 2 and nlive[int(w[1])] > 0 else 'skip')
             elif w[0] == 'bfreeall':
                 next(it, None)
                 l = next(it, 'missing')
                 res.append('bfreeall ok' if l.startswith('freeall ok') else l)
+                nlive[2] = 0
         return res
 
     def model(self, cases):
